@@ -165,13 +165,15 @@ CLAIMED = {
         "concat parts) equals the designer's bits, bit i to bit i (connection_preserved, bit_i_to_bit_i, concat_order). F2 (portrefs_preserve_connectivity, over the model of "
         "ResolvePortRefs with follow proved to compute connected components): after the pass two ports share a signal iff the designer's "
         "port-signal and port-reference connections join them, a port is on a declared signal iff wired to it, a no-connected port is alone, "
-        "invented signals are fresh; the model is tied to the code by its own stream (resolution vs exported signals, refusal vs raise). Everything "
-        "beyond — references inside slices / concatenations, arrays, bundles / anonymous bundles / bundle references, pairs, and the "
+        "invented signals are fresh; the model is tied to the code by its own stream (resolution vs exported signals, refusal vs raise); references inside slices "
+        "and concatenations (references_inside_compounds): replacing a reference by the signal it resolved to commutes with slicing and concatenating — "
+        "bit i of the elaborated connection is bit i of the written one (checked on random compounds over references); per-element array wiring "
+        "(array_element_bits). Everything beyond — arrays' broadcast, bundles / anonymous bundles / bundle references, pairs, and the "
         "composition across hierarchy — is decided by correspondence: Sem.src (Lean, declarative, no reference to any pass) vs "
         "Sem.pkg of the real package (Lean, netlister reading) vs the partition read from the spice text, plus leaf devices and "
         "parameters, on generated designs over all constructs in three construction styles.",
         note="Sem.src / Sem.pkg / the net solver are specifications executed by the driver (Design.lean, Pkg.lean, Nets.lean); the "
-        "pass-by-pass preservation theorems for F3 (bundles, arrays, pairs, hierarchy) and for references inside slices / concatenations are not proved. vlsirtools' positional reading is modelled and validated "
+        "pass-by-pass preservation theorems for F3 (bundles, pairs, hierarchy) are not proved. vlsirtools' positional reading is modelled and validated "
         "against the netlist text on every design. Designs the unchanged code rejects although well-formed are listed in "
         "designs.known_limitation and stepped around.",
         ref="DESIGN.md §6 C01",
@@ -253,7 +255,8 @@ CLAIMED = {
         text="Proved in Lean: sorting a set of port references by a key that identifies its members yields the same list for every "
         "enumeration order of the set (any permutation — the model of CPython's address- and seed-dependent set iteration), so anything "
         "computed from portref.ordered() — the order of an instance's connections, invented names — is the same in every process "
-        "(order_independent, computed_from_ordered, ordered_perm). The runtime facts no model can exhibit (id()/seed based hashing, "
+        "(order_independent, computed_from_ordered, ordered_perm); the key as written, (instance name, port name) compared as tuples, identifies the "
+        "references held by the instances of one module, the instance name alone does not (ordered_portrefs_independent, instance_name_alone_is_not_a_key). The runtime facts no model can exhibit (id()/seed based hashing, "
         "allocation history, protobuf determinism, md5) are decided by correspondence: every generated design and a corpus where one "
         "bundle (or one anonymous bundle object) feeds several ports of an instance, reference groups with ties, generator programs with hashed / "
         "over-long / uncached names, run in N fresh interpreters with different PYTHONHASHSEED and random unrelated "
